@@ -140,6 +140,12 @@ var checkLaws = ev.Register("mwu-laws", func(c *Case) ev.Outcome {
 	if wantErr != nil {
 		classes = append(classes, "error-case")
 	}
+	for _, t := range T {
+		if t >= 256 {
+			classes = append(classes, "tie-group>=256")
+			break
+		}
+	}
 
 	w := ref.PairCountU2(x1, x2)
 	var uref *ref.UCounts
@@ -343,8 +349,8 @@ func drawCase(t *rapid.T) *Case {
 		c.TiesLimit = rapid.SampledFrom(limits).Draw(t, "tiesLimit")
 	}
 	maxSize := 60
-	if c.TiesLimit == 1000 {
-		maxSize = 30 // keeps every tie group within the reference's range
+	if c.TiesLimit >= 50 {
+		maxSize = 30 // exact method with ties up to the limit: keeps every tie group within the reference's range (60)
 	} else if c.ExactLimit != 1000 && rapid.IntRange(0, 5).Draw(t, "big") == 0 {
 		maxSize = 400
 	}
@@ -400,6 +406,27 @@ func drawCase(t *rapid.T) *Case {
 		p := gen.Perm(t, N, "deal")
 		c.L1 = append([]int{}, p[:n1]...)
 		c.L2 = append([]int{}, p[n1:]...)
+	} else if (n1 >= 250 || n2 >= 250) && rapid.IntRange(0, 2).Draw(t, "dominant") != 0 {
+		// one value dominates: tie groups of several hundred equal values inside one sample
+		dom := rapid.IntRange(0, k-1).Draw(t, "domLevel")
+		lvl := func(label string) int {
+			if rapid.IntRange(0, 9).Draw(t, label+".other") == 0 {
+				return rapid.IntRange(0, k-1).Draw(t, label)
+			}
+			return dom
+		}
+		for i := 0; i < n1; i++ {
+			c.L1 = append(c.L1, lvl("l1"))
+		}
+		for i := 0; i < n2; i++ {
+			c.L2 = append(c.L2, lvl("l2"))
+		}
+		if c.L1 == nil {
+			c.L1 = []int{}
+		}
+		if c.L2 == nil {
+			c.L2 = []int{}
+		}
 	} else {
 		c.L1 = rapid.SliceOfN(rapid.IntRange(0, k-1), n1, n1).Draw(t, "l1")
 		c.L2 = rapid.SliceOfN(rapid.IntRange(0, k-1), n2, n2).Draw(t, "l2")
